@@ -58,6 +58,13 @@ RunOK(r) ==
                         SameStats(bd.batches[k][st][a],
                                   EvalArmIn(testRows, trainRows, bd.predictions, bd.nb, a, st,
                                             (k - 1) * r.batch + 1, IF k * r.batch < T THEN k * r.batch ELSE T)))
+        /\ (bd.metric # "" /\ bd.nb # <<>>) =>
+              Check("nb.stats",
+                    \A i \in DOMAIN bd.nb : \A a \in RangeS(r.arms) :
+                        LET want == NbStat(trainRows, testRows, i, r.batch, bd.metric, bd.radius, a)
+                            got == bd.nb[i][a]
+                        IN  IF want[1] = 0 THEN got[1] = 0
+                            ELSE /\ got[1] = 1 /\ Rat2(got[2]) = want[2] /\ Rat2(got[3]) = want[3] /\ Rat2(got[4]) = want[4])
         /\ Check("eval.ordered",
                  \A a \in RangeS(r.arms) :
                      (bd.evals["mean"][a].count > 0) =>
